@@ -779,7 +779,13 @@ func runWSCase(t *testing.T, c *WSCase, trace bool) *common.Outcome {
 	if len(res.Panics) > 0 {
 		o.Fail("escaped-panic", "", "%s", res.Panics[0])
 	}
-	if res.BudgetHit && o.V == nil {
+	if res.BudgetHit {
+		// (the run was cut off: what the unwinding goroutines report while the world is torn
+		// down is no verdict)
+		if o.V != nil {
+			o.Probe("report_during_teardown_discarded")
+			o.V = nil
+		}
 		o.Probe("inconclusive_step_budget_exhausted")
 		o.NonTrivial = false
 	}
